@@ -2,7 +2,7 @@
    the implementation: compared with the model (Model/Linear.v, Model/Synth.v) and judged by the
    contracts of C06 (recombination / locality), C07 (mapping purity), C09 (inputs untouched) and C10
    (grammar untouched).  No proofs. *)
-From GE Require Import Base Tape Grammar WellTyped Synth Linear C18Check GrammarCheck SynthCheck.
+From GE Require Import Base Tape Grammar WellTyped Synth Linear Stack C18Check GrammarCheck SynthCheck.
 Open Scope Z_scope.
 
 Inductive rkind :=
@@ -299,6 +299,39 @@ Definition run_c01r (cases : list repcase) : list N * list N * list N :=
 Definition run_c06 (cases : list repcase) : list N * list N * list N :=
   (failing rep_corr cases, failing (fun c => c06_ok c || f13_region c) cases, failing (fun c => c06_ok c || negb (f13_region c)) cases).
 Definition run_c07 (cases : list repcase) : list N * list N := (failing rep_corr cases, failing c07_ok cases).
+
+(* ---------- the stack machine (Model/Stack.v) against the program the implementation's mapping returned ---------- *)
+(* on the hierarchies the model speaks about; failures_limit is the representation's default; the side condition of the
+   theorem stack_mapped_well_typed (every class among the stack types is registered) is evaluated on the way *)
+Definition stack_corr (c : repcase) : bool :=
+  match c with
+  | KRep d (RStack _) (RMap (GCodons p)) _ o =>
+      match extract d id_order with
+      | Err _ => negb (stack_decl_ok d)
+      | Ok g =>
+          types_registered g (all_stack_types g) &&         (* on every hierarchy, also those outside the machine's model *)
+          (negb (stack_decl_ok d && weights_dyadic g) ||
+           match stack_map (60 * 100) g 100 p, ro_res o with
+           | Err OutOfFuel, _ => true
+           | Ok v, POk (OPheno w _) => value_close v w
+           | Err e, PErr e' => err_eqb e e'
+           | _, _ => false
+           end)
+      end
+  | _ => true
+  end.
+(* the cases on which the model gave a definite answer (hierarchy inside the model, not out of fuel) *)
+Definition stack_definite (c : repcase) : bool :=
+  match c with
+  | KRep d (RStack _) (RMap (GCodons p)) _ o =>
+      stack_decl_ok d && match extract d id_order with
+                         | Ok g => weights_dyadic g && match stack_map (60 * 100) g 100 p with Err OutOfFuel => false | _ => true end
+                         | Err _ => false
+                         end
+  | _ => false
+  end.
+(* second list: the cases WITHOUT a definite answer *)
+Definition run_stack (cases : list repcase) : list N * list N := (failing stack_corr cases, failing stack_definite cases).
 Definition run_c09 (cases : list repcase) : list N * list N := (failing rep_corr cases, failing c09_ok cases).
 Definition run_c10r (cases : list repcase) : list N * list N := (failing rep_corr cases, failing c10r_ok cases).
 
